@@ -373,6 +373,13 @@ Proof.
   eapply h_bind_pure; [apply h_ri_guard|]. intros ? Hu. cbn beta in Hu.
   eapply h_seq; [apply h_mutate_real; assumption|]. intros _. ret_real.
 Qed.
+Lemma h_ri_mkdir_cu pr nm mode : rok pr -> hoare TT (ri_mkdir_cu pr nm mode) (fun r _ => goodreal r).
+Proof.
+  intros Hr. unfold ri_mkdir_cu.
+  eapply h_bind_pure; [apply h_ri_mkdir; exact Hr|]. intros ri [Hri Hru].
+  eapply h_seq; [destruct (has_setid mode); [apply h_mutate_real; assumption|hret]|]. intros _.
+  eapply h_conseq; [apply (h_ret ri TT)|auto|]. cbn beta; intros a s [-> _]. split; assumption.
+Qed.
 Lemma h_ri_create pr nm mode : rok pr -> hoare TT (ri_create pr nm mode) (fun r _ => goodreal r).
 Proof.
   intros Hr. unfold ri_create.
@@ -459,7 +466,7 @@ Proof.
   eapply h_seq; [apply h_if; intros _; [hret|eapply h_weaken; apply IH]|]. intros _.
   eapply h_bind_pure; [apply h_get_node_pure|]. intros pn' Hpn'.
   eapply h_bind_pure; [apply h_upper_real; exact Hpn'|]. intros pr [Hpr Hu].
-  eapply h_bind_pure; [apply h_ri_mkdir; exact Hpr|]. intros ri [Hri Hru].
+  eapply h_bind_pure; [apply h_ri_mkdir_cu; exact Hpr|]. intros ri [Hri Hru].
   apply h_mod_add_upper_post; assumption.
 Qed.
 Lemma h_create_upper_dir' fuel p : hoare TT (create_upper_dir fuel p) (fun _ _ => True).
